@@ -180,20 +180,24 @@ func vC15UnmarshalRequest(w *WriteShardRequest, buf []byte) error {
 // processWriteShardRequest with 1..2 binary points of arbitrary bytes: the node does not crash,
 // the store never sees a nil point, and an undecodable point is answered with an error.
 func VerifHarness_C15_WriteShardArbitraryPoints() {
-	n := vLen("points", 1, 2)
+	maxPts, maxFields, maxRaw := 1, 3, 6
+	if vThorough() {
+		maxPts, maxFields, maxRaw = 2, 4, 9
+	}
+	n := vLen("points", 1, maxPts)
 	var raw [][]byte
 	for i := 0; i < n; i++ {
 		if vBool("structuredPoint") {
 			// well-formed frame (1-byte key, 0..4 arbitrary field bytes, valid timestamp):
 			// reaches the field iterator with arbitrary field text
 			tb, _ := time.Unix(0, 1700000000000000000).UTC().MarshalBinary()
-			fields := vBytes("fields", vLen("fieldsLen", 0, 4))
+			fields := vBytes("fields", vLen("fieldsLen", 0, maxFields))
 			p := []byte{0, 0, 0, 1, vByte("key"), 0, 0, 0, byte(len(fields))}
 			p = append(p, fields...)
 			p = append(p, tb...)
 			raw = append(raw, p)
 		} else {
-			raw = append(raw, vBytes("point", vLen("pointLen", 0, 9)))
+			raw = append(raw, vBytes("point", vLen("pointLen", 0, maxRaw)))
 		}
 	}
 	decodable := true
